@@ -46,6 +46,9 @@ class C05(vlib.Check):
                                   ['asg,0,1', 'move,3,0', 'alloc,0,%d,99' % k, 'del,3'], ['asg,0,1', 'asg,0,2']):
                         yield 'buf %s 4 %s' % (ty, ';'.join(['new,0,' + a, 'new,1,' + long_u, 'new,2,' + val] + route + ['del,0', 'del,1', 'del,2']))
                     yield 'buf %s 4 %s' % (ty, ';'.join(['new,1,' + long_u, 'new,2,' + val, 'copy,0,1', 'alloc,0,%d,99' % k, 'del,0', 'del,1', 'del,2']))
+                    # exchange (using std::swap; swap(x, y)) of a long object whose in-object array is dirty with a short one
+                    yield 'buf %s 4 %s' % (ty, ';'.join(['new,0,' + a, 'new,1,' + long_u, 'new,2,' + val, 'asg,0,1', 'swap,0,2', 'swap,2,1', 'swap,0,0',
+                                                        'copy,3,2', 'del,3', 'del,0', 'del,1', 'del,2']))
         n = 250 if tier == 'quick' else 40000
         for ty, L in lim.items():
             for _ in range(n):
